@@ -27,7 +27,8 @@ CLASSES = {1: "pool-below-sum-of-active", 2: "pool-differs-from-sum-of-active-wi
            5: "beginblock-pays-negative-matured-undelegation", 6: "beginblock-pays-negative-matured-reward-withdrawal",
            7: "negative-delegator-balance", 8: "negative-active-delegation",
            9: "reward-accrual-not-proportional-to-committed-active-delegations",
-           10: "pending-entry-of-a-reached-height-not-cleared"}
+           10: "pending-entry-of-a-reached-height-not-cleared",
+           11: "reward-balance-not-debited-by-exactly-the-withdrawn-or-reinvested-amount"}
 
 
 def evaluate(ctx, vh, args, tag="c12"):
